@@ -568,11 +568,10 @@ class Ctx:
                 "describe": st.describe, "wall_s": round(time.time() - t0, 2),
                 "samples": [{"case": c, "impl": i, "model": m} for c, i, m in
                             [(cases[k], impl[k], model[k]) for k in _sample_idx(len(cases), 3, self.rng)]]}
-        if getattr(st, "stats", None):
-            try:
-                info["input_distribution"] = st.stats(cases, impl, model)
-            except Exception as e:  # noqa: BLE001  (statistics must never break a check)
-                info["input_distribution"] = {"error": str(e)[:200]}
+        try:
+            info["input_distribution"] = (getattr(st, "stats", None) or default_stats)(cases, impl, model)
+        except Exception as e:  # noqa: BLE001  (statistics must never break a check)
+            info["input_distribution"] = {"error": str(e)[:200]}
         self.cov.setdefault("streams", []).append(info)
         # monitor on the implementation trace of EVERY case (cheap ones are Python predicates)
         bad = []
@@ -619,6 +618,35 @@ class Ctx:
             for f in fails:
                 self.report("correspondence-broken", {"stream": st.name, "what": f}, nfi=True)
         return impl, model
+
+
+def default_stats(cases, impl, model):
+    """input distribution of a stream that does not describe its own: case sizes, the kinds of tokens (first letter of each
+    space/comma/semicolon separated token), and the kinds of outcomes on the model side (first token of each trace entry)"""
+    import re as _re
+    if not cases:
+        return {}
+    lens = sorted(len(c) for c in cases)
+    ntok = sorted(len([t for t in _re.split(r"[ ,;|]+", c) if t]) for c in cases)
+    kinds = {}
+    for c in cases[:20000]:
+        for t in _re.split(r"[ ,;|]+", c):
+            if t:
+                k = t[0]
+                kinds[k] = kinds.get(k, 0) + 1
+    top = dict(sorted(kinds.items(), key=lambda kv: -kv[1])[:24])
+    outs = {}
+    for m in model[:20000]:
+        for t in _re.split(r"[ ,;|]+", m)[:64]:
+            if t:
+                k = _re.sub(r"[0-9a-f]{3,}|\d+", "#", t)[:12]
+                outs[k] = outs.get(k, 0) + 1
+    otop = dict(sorted(outs.items(), key=lambda kv: -kv[1])[:24])
+    q = lambda v, f: v[min(len(v) - 1, int(f * len(v)))]
+    return {"case_chars_min_median_p90_max": [lens[0], q(lens, 0.5), q(lens, 0.9), lens[-1]],
+            "tokens_per_case_min_median_p90_max": [ntok[0], q(ntok, 0.5), q(ntok, 0.9), ntok[-1]],
+            "token_kinds_by_first_letter": top, "model_outcome_kinds": otop,
+            "cases_sampled_for_kinds": min(len(cases), 20000)}
 
 
 def _sample_idx(n, k, rng):
